@@ -278,6 +278,28 @@ def _check(s, extra, timeout_s):
     return str(r), m, dt
 
 
+def _check_split(s, bm, main, extra, timeout_s):
+    """the fault-class query decided fault instruction by fault instruction (fault index restricted to the sites of one
+    instruction at a time): the disjunction of the sub-queries is the full query; far easier for the SAT core.
+    -> (verdict, model, seconds, number of sub-queries)"""
+    total, n = 0.0, 0
+    unknown = False
+    for ins in main.code:
+        if ins.op != "fault":
+            continue
+        ids = [e[0] for e in ins.a]
+        lo, hi = min(ids), max(ids)
+        rng = z3.And(z3.UGE(bm.fk, z3.BitVecVal(lo, bm.fb)), z3.ULE(bm.fk, z3.BitVecVal(hi, bm.fb)))
+        r, m, dt = _check(s, list(extra) + [rng], timeout_s)
+        total += dt
+        n += 1
+        if r == "sat":
+            return r, m, total, n
+        if r == "unknown":
+            unknown = True
+    return ("unknown" if unknown else "unsat"), None, total, n
+
+
 def _qhash(*parts):
     return hashlib.sha1(repr(parts).encode()).hexdigest()[:12]
 
@@ -744,9 +766,14 @@ def run_h3(job):
             label = "every executor constructed during the call is shut down when the call %s" % (
                 "raises (fault index symbolic over %d call sites of the chain)" % len(sites) if klass == "fault" else "returns")
             key = "%s/%s/%s" % (PROP, job["id"], "executor-left-running-on-exception" if klass == "fault" else "executor-left-running")
-            r, m, dt = _check(s, side, job["timeout_s"])
+            if klass == "fault":
+                r, m, dt, nsub = _check_split(s, bm, main, side, job["timeout_s"])
+            else:
+                r, m, dt = _check(s, side, job["timeout_s"])
+                nsub = 1
             res["solver_s"] += dt
-            q = {"label": label, "result": r, "s": round(dt, 2), "trivial": False, "hash": _qhash("H3", job["id"], klass, [repr(i) for i in main.code])}
+            q = {"label": label, "result": r, "s": round(dt, 2), "trivial": False, "sub_queries": nsub,
+                 "hash": _qhash("H3", job["id"], klass, [repr(i) for i in main.code])}
             res["queries"].append(q)
             if r == "unknown":
                 res["inconclusive"].append({"label": label, "why": "solver unknown/timeout"})
